@@ -343,7 +343,7 @@ def check_bm(paths, vis, head, n, sc, sb, m, dg, NB):
       for u, v in ((a.args[0], a.args[1]), (a.args[1], a.args[0])):
         ua = u.as_atom()
         bitpos = None
-        if ua is not None and ua.kind == "shl" and ua.args[0].as_int() == 1 and not one:
+        if ua is not None and ((ua.kind == "shl" and ua.args[0].as_int() == 1) or (ua.kind == "pow" and as_poly(ua.args[0]).as_int() == 2)) and not one:
           av = aligned(v, base)
           if av is not None and set(av) == {"C"}:
             bitpos = av["C"] + ua.args[1]
